@@ -15,13 +15,13 @@ def run(ctx):
         Ob('wrapper_order', 'ob_wrapper_order', '', packed=[('outer_i', NL), ('with_emb', 3), ('nroutes', 3), ('seh', 2, 'bool'), ('emb_i', NL)],
            cells=[('outer%d_emb%d' % (o, e), [{'outer_i': o, 'with_emb': e}]) for o in range(NL) for e in range(3)], timeout=tmo,
            twin_fn='tw_wrapper_order', twin_pre=[{'outer_i': NL - 1, 'with_emb': 1}], confirm='confirm_wrapper_order',
-           desc='application-level middleware lists (<= 2 of 3 wrapping unique types + 1 non-wrapping) x 0-2 own routes x 0, 1 or 2 (sibling) embedded applications with their own instances (lists may repeat a unique type): '
+           desc='application-level middleware lists (<= 2 of 3 wrapping unique types + a wrapping SUBCLASS of one of them + 1 non-wrapping) x 0-2 own routes x 0, 1 or 2 (sibling) embedded applications with their own instances (lists may repeat a unique type): '
                 'on one request the wrappers run in list order, outermost first, the embedding application\'s before the embedded one\'s, a unique type once'),
         Ob('files_released', 'ob_files_released', '', packed=[('file_i', 5), ('ims_sel', 4), ('method_i', 2), ('via_route', 2, 'bool')], timeout=tmo, confirm='confirm_files_released',
            desc='StaticApplication / StaticFileRoute responses (200, 304 for If-Modified-Since at/after the mtime, HEAD): after close() of the returned iterable no file opened by clastic.static is still open'),
-        Ob('reroute', 'ob_reroute', '', packed=[('how', 4), ('si', 4), ('hi', 3), ('bi', 4), ('extra_env', 3)], cells=[('how%d' % h, [{'how': h}]) for h in range(4)],
+        Ob('reroute', 'ob_reroute', '', packed=[('how', 4), ('si', 4), ('hi', 3), ('bi', 4), ('extra_env', 3), ('pv', 5)], cells=[('how%d' % h, [{'how': h}]) for h in range(4)],
            timeout=tmo, confirm='confirm_reroute',
-           desc='RerouteWSGI used as endpoint / raised by endpoint, middleware or render: the target gets the very environ object with every original entry, and its '
+           desc='RerouteWSGI used as endpoint / raised by endpoint, middleware or render, on exact, rewritten (missing or repeated slashes, rewrite mode) and strict paths: the target gets the very environ object with every original entry, and its '
                 'status line, header list and body iterable reach the server verbatim'),
         Ob('dispatch_once', 'ob_dispatch_once', '', packed=[('kind', 3)], timeout=tmo,
            desc='_dispatch_wsgi calls the dispatched response object exactly once with the server\'s environ/start_response and returns its iterable itself'),
